@@ -5,6 +5,10 @@ package broker
 import (
 	"context"
 	"fmt"
+	"net"
+	"net/url"
+	"os"
+	"path/filepath"
 	"regexp"
 	"sort"
 	"strings"
@@ -13,6 +17,7 @@ import (
 
 	"github.com/twmb/franz-go/pkg/kmsg"
 	clientv3 "go.etcd.io/etcd/client/v3"
+	"go.etcd.io/etcd/server/v3/embed"
 	"pgregory.net/rapid"
 	"verif.local/vfkit"
 
@@ -76,8 +81,8 @@ type c16Script struct {
 
 type c16Info struct {
 	absentFetch, presentFetch, fetchErr, commitErr, rejected, deletes int
-	setupFailed                                                        string
-	zeroForAbsent                                                      int
+	setupFailed                                                       string
+	zeroForAbsent                                                     int
 }
 
 func c16Has(vals []c16Val, v c16Val) bool {
@@ -588,7 +593,7 @@ type c16Etcd struct {
 }
 
 func c16StartEtcd(t *testing.T) *c16Etcd {
-	endpoints := testutil.StartEmbeddedEtcd(t)
+	endpoints := c16StartFastEtcd(t)
 	cli, err := clientv3.New(clientv3.Config{Endpoints: endpoints, DialTimeout: 5 * time.Second})
 	if err != nil {
 		fmt.Println("VF-INCONCLUSIVE: cannot connect to embedded etcd:", err)
@@ -701,4 +706,52 @@ func TestVF_C16_Witness(t *testing.T) {
 		st.NonTrivial("witness", w.id)
 		st.Sample(map[string]any{"witness": w.id, "script": w.script, "violation": viol})
 	}
+}
+
+// c16StartFastEtcd is internal/testutil.StartEmbeddedEtcd with UnsafeNoFsync (the checks
+// never restart etcd, so durability of its WAL is irrelevant and the shared machine's disk
+// latency stays out of the 3 s operation timeouts of EtcdStore). Falls back to the repo's
+// own starter if this one cannot start.
+func c16StartFastEtcd(t *testing.T) []string {
+	for attempt := 0; attempt < 4; attempt++ {
+		cfg := embed.NewConfig()
+		cfg.Dir = t.TempDir()
+		cfg.Logger = "zap"
+		cfg.LogLevel = "error"
+		cfg.LogOutputs = []string{filepath.Join(os.TempDir(), fmt.Sprintf("etcd-vf-c16-%d.log", attempt))}
+		cfg.UnsafeNoFsync = true
+		ports := [2]int{}
+		ok := true
+		for i := range ports {
+			ln, err := net.Listen("tcp", "127.0.0.1:0")
+			if err != nil {
+				ok = false
+				break
+			}
+			ports[i] = ln.Addr().(*net.TCPAddr).Port
+			_ = ln.Close()
+		}
+		if !ok {
+			continue
+		}
+		cu, _ := url.Parse(fmt.Sprintf("http://127.0.0.1:%d", ports[0]))
+		pu, _ := url.Parse(fmt.Sprintf("http://127.0.0.1:%d", ports[1]))
+		cfg.ListenClientUrls, cfg.AdvertiseClientUrls = []url.URL{*cu}, []url.URL{*cu}
+		cfg.ListenPeerUrls, cfg.AdvertisePeerUrls = []url.URL{*pu}, []url.URL{*pu}
+		cfg.InitialCluster = cfg.InitialClusterFromName(cfg.Name)
+		e, err := embed.StartEtcd(cfg)
+		if err != nil {
+			continue
+		}
+		select {
+		case <-e.Server.ReadyNotify():
+		case <-time.After(20 * time.Second):
+			e.Server.Stop()
+			e.Close()
+			continue
+		}
+		t.Cleanup(func() { e.Close() })
+		return []string{"http://" + e.Clients[0].Addr().String()}
+	}
+	return testutil.StartEmbeddedEtcd(t)
 }
